@@ -40,7 +40,15 @@ pub fn is_token_char(b: u8) -> bool {
 pub fn parse_response(input: &[u8], head_request: bool) -> Result<ParsedResponse, String> {
     let head_end = find(input, b"\r\n\r\n").ok_or("no CRLFCRLF terminating the header block")?;
     let head = &input[..head_end];
-    let mut lines = head.split(|b| *b == b'\n').map(|l| l.strip_suffix(b"\r").ok_or("bare LF in head")).collect::<Result<Vec<_>, _>>()?;
+    let mut lines: Vec<&[u8]> = Vec::new();
+    let mut rest_head = head;
+    loop {
+        match find(rest_head, b"\r\n") {
+            Some(i) => { lines.push(&rest_head[..i]); rest_head = &rest_head[i + 2..]; }
+            None => { lines.push(rest_head); break }
+        }
+    }
+    if lines.iter().any(|l| l.iter().any(|b| *b == b'\n' || *b == b'\r')) { return Err("bare CR or LF in head".into()) }
     let status_line = lines.remove(0);
     let sl = std::str::from_utf8(status_line).map_err(|_| "status line not UTF-8")?;
     let rest = sl.strip_prefix("HTTP/1.1 ").ok_or("status line does not start with `HTTP/1.1 `")?;
@@ -112,7 +120,7 @@ mod t {
     use super::*;
     #[test] fn basic() {
         let r = parse_response(b"HTTP/1.1 200 OK\r\nContent-Length: 2\r\nX: y\r\n\r\nhiEXTRA", false).unwrap();
-        assert_eq!((r.status, r.body.as_slice(), r.consumed), (200, &b"hi"[..], 44));
+        assert_eq!((r.status, r.body.as_slice(), r.consumed), (200, &b"hi"[..], 46));
         let r = parse_response(b"HTTP/1.1 200 OK\r\nTransfer-Encoding: chunked\r\n\r\n2\r\nhi\r\n0\r\n\r\n", false).unwrap();
         assert_eq!(r.body, b"hi");
         assert!(parse_response(b"HTTP/1.1 200 OK\r\nContent-Length: 5\r\n\r\nhi", false).is_err());
